@@ -27,3 +27,10 @@ def _lazy_format(obj, format_spec=""):
     return type(obj).__format__(obj, format_spec)
 
 _PATCH_REGISTRATIONS[format] = _lazy_format
+
+# tartiflette relies on functools.partial flattening (`partial(partial_obj, ...).keywords` merges) in
+# utils/errors.located_error; CrossHair's replacement wraps the callee and loses it -> spurious error paths.
+# It also bypasses functools.lru_cache entirely, which would make the C16 obligations vacuous.
+import functools as _ft
+_PATCH_REGISTRATIONS.pop(_ft.partial, None)
+_PATCH_REGISTRATIONS.pop(_ft._lru_cache_wrapper.__call__, None)
